@@ -79,10 +79,26 @@ def gen_histories(ctx, pools, n, chunk_no):
         if covered and lid not in c17lib.COVERED_LANGS:
             lid = rng.choice(c17lib.COVERED_LANGS)   # (WV encodes the text of typed elements as opaque integers / dates: C-only stream)
         xmlgen = rng.choice([0, 1, 2]) if mode == "X" else 0
+        if not covered and rng.chance(1, 3):
+            xmlgen += 10                     # ignore_empty_text + remove_text_blanks: blank text nodes encode to nothing
         nodes_only = rng.chance(2, 5)          # nodes only, each at most once: the literal batch exists for every remainder
         pool, infos = pools.pool(rng, lid, covered, mode == "X", big=nodes_only)
         ops = c17lib.history(rng, infos, rng.range(3, 40), raw=not nodes_only, drate=rng.choice([5, 10, 20, 30]))
-        hs.append({"lang": lid, "mode": mode, "xmlgen": xmlgen, "pool": pool, "ops": ops, "covered": covered,
+        doc = False
+        if covered and rng.chance(1, 3):
+            # document-shaped: raw start of a root element, nodes and deletions, raw end: the final output is a complete
+            # WBXML document, which the proved strict decoder (Spec.decode_lang, C04) must read back as exactly the
+            # remaining nodes
+            roots = [i for i, inf in enumerate(infos) if not inf["text"] and inf["has_kids"]]
+            elts = [i for i, inf in enumerate(infos) if not inf["text"]]
+            if roots and elts:
+                r0 = rng.choice(roots)
+                body = ["N%d" % rng.choice(elts)]
+                for _ in range(rng.range(0, 14)):
+                    body.append("D" if rng.chance(1, 4) else "N%d" % rng.choice(elts))
+                ops = ["S%d,1" % r0] + body + ["F%d,1" % r0]
+                doc = True
+        hs.append({"lang": lid, "mode": mode, "xmlgen": xmlgen, "pool": pool, "ops": ops, "covered": covered, "doc": doc,
                    "line": "flow %d %s %d %s %s" % (lid, mode, xmlgen, pool, ";".join(ops))})
     return hs
 
@@ -108,6 +124,11 @@ def run(ctx):
     harness = common.build_harness("c17_harness")
     driver = common.build_driver("C17")
     denv = common.run_env({"C18_TABLES": tfile})
+    gen.gen_tables()
+    strict_driver = common.build_driver("C04")          # `strict <lang> <hex>` = Spec.decode_lang (proved round trip, C04)
+    hl = ["header %d W 0" % l for l in c17lib.COVERED_LANGS]
+    ha, _ = common.run_lines(harness, hl, shards=1)
+    wheaders = {l: a.split(":")[1] for l, a in zip(c17lib.COVERED_LANGS, ha) if a and a.startswith("0:")}
 
     # ---- which behaviour does the C have?  (the D16 witnesses: code page in WBXML, in_content in indented XML)
     w = witness_lines(pools)
@@ -135,6 +156,19 @@ def run(ctx):
             "line": w["w_flow"] + ";G"},
            {"lang": 2201, "mode": "X", "xmlgen": 1, "pool": w["x_flow"].split(" ")[4], "ops": ["N0", "D", "N1"], "covered": False,
             "line": w["x_flow"]}]
+    L12 = pools.langs[2201]["tags"]
+    D12 = pools.langs[2202]["tags"]
+
+    def ti(tags, name):
+        return next(i for i, r in enumerate(tags) if r[0] == name)
+    # a node that encodes to nothing followed by a deletion (seeded C17_1), an embedded document (seeded C17_2)
+    zpool = "e%d.(.)/e%d.(.x%s.)/x-/c.(.)" % (ti(L12, "Add"), ti(L12, "Cmd"), b"zq".hex())
+    epool = "e%d.(.)/e%d.(.t2202.(.e%d.(.e%d.(.x%s.).).).)" % (ti(L12, "Add"), ti(L12, "Data"), ti(D12, "DevInf"), ti(D12, "VerDTD"), b"1.2".hex())
+    for mode, gen_ in (("W", 0), ("X", 0)):
+        pre.append({"lang": 2201, "mode": mode, "xmlgen": gen_, "pool": zpool, "ops": ["N0", "N1", "N2", "D", "N3", "D", "G"], "covered": False,
+                    "line": "flow 2201 %s %d %s N0;N1;N2;D;N3;D;G" % (mode, gen_, zpool)})
+        pre.append({"lang": 2201, "mode": mode, "xmlgen": gen_, "pool": epool, "ops": ["N0", "N1", "G"], "covered": False,
+                    "line": "flow 2201 %s %d %s N0;N1;G" % (mode, gen_, epool)})
     if getattr(ctx, "replay", None):
         rp = json.load(open(ctx.replay))
         if rp.get("input") and rp["input"].startswith("flow "):
@@ -155,7 +189,8 @@ def run(ctx):
         done += n
         if not batch:
             break
-        process(ctx, batch, harness, driver, denv, fixed, model_fixed, total, kinds, nontrivial, concrete, corr, samples)
+        process(ctx, batch, harness, driver, denv, fixed, model_fixed, total, kinds, nontrivial, concrete, corr, samples,
+                strict_driver, wheaders, pools)
         if len(concrete) > 50:
             break
 
@@ -198,7 +233,50 @@ def run(ctx):
         ctx.coverage["note"] = "model/C disagreements also present: %d" % len(corr)
 
 
-def process(ctx, batch, harness, driver, denv, fixed, model_fixed, total, kinds, nontrivial, concrete, corr, samples):
+def expected_events(pools, lang, pool, frags):
+    """what the remaining fragments denote, as the strict decoder prints events (token tags, plain text only)"""
+    tags = pools.langs[lang]["tags"]
+    specs = pool.split("/")
+
+    first = {}
+    for r in tags:
+        first.setdefault((r[1], r[2]), r[0])      # a token with two names (AirSync page 14 token 0x10) decodes to the first
+
+    def tname(i):
+        r = tags[i]
+        return "T.%d.%d.%s" % (r[1], r[2], first[(r[1], r[2])].encode().hex())
+
+    def node_events(toks, pos):
+        t = toks[pos]
+        if t[0] == "x":
+            return ["CH:" + t[1:]], pos + 1
+        if t[0] != "e":
+            raise ValueError(t)
+        name = tname(int(t[1:]))
+        ev = ["SE:" + name]
+        pos += 1
+        if pos < len(toks) and toks[pos] == "(":
+            pos += 1
+            while toks[pos] != ")":
+                e2, pos = node_events(toks, pos)
+                ev += e2
+            pos += 1
+        return ev + ["EE:" + name], pos
+    out = []
+    for f in frags:
+        i = int(f[1:].split(",")[0])
+        toks = specs[i].split(".")
+        if f[0] == "N":
+            out += node_events(toks, 0)[0]
+        elif f[0] == "S":
+            out.append("SE:" + tname(int(toks[0][1:])))
+        elif f[0] == "F":
+            out.append("EE:" + tname(int(toks[0][1:])))
+    return out
+
+
+def process(ctx, batch, harness, driver, denv, fixed, model_fixed, total, kinds, nontrivial, concrete, corr, samples,
+            strict_driver=None, wheaders=None, pools=None):
     lines, owner = [], []            # owner: (history index, kind, payload)
     for hi, h in enumerate(batch):
         h["lives"] = c17lib.live_prefixes(h["ops"])
@@ -239,6 +317,7 @@ def process(ctx, batch, harness, driver, denv, fixed, model_fixed, total, kinds,
             per[hi]["flow"] = a
         else:
             per[hi][kind][payload] = a
+    strict_jobs = []
     for hi, h in enumerate(batch):
         total["evaluations"] += 1
         key = "lang %d %s" % (h["lang"], h["mode"])
@@ -294,6 +373,9 @@ def process(ctx, batch, harness, driver, denv, fixed, model_fixed, total, kinds,
             total["d16_histories"] += 1
             if not isfixed:
                 known(ctx, "delete-last-keeps-code-page" if h["mode"] == "W" else "delete-last-keeps-xml-state")
+        # second oracle: the proved strict decoder reads the final output of a document-shaped history
+        if h.get("doc") and strict_driver and h["lang"] in (wheaders or {}) and flow[-1][1] == "1" and (isfixed or not d16):
+            strict_jobs.append((h, "strict %d %s%s" % (h["lang"], wheaders[h["lang"]], flow[-1][2])))
         if failed:
             concrete.append(failed)
             continue
@@ -332,3 +414,11 @@ def process(ctx, batch, harness, driver, denv, fixed, model_fixed, total, kinds,
             nontrivial.add(hash(h["line"]))
         if len(samples) < 12 and hash(h["line"]) % 11 == 0 and "D" in h["ops"]:
             samples.append({"input": h["line"][:500], "last_output_body": flow[-1][2][:120], "remaining": ";".join(h["lives"][-1][0])})
+    if strict_jobs:
+        sa, _ = common.run_lines(strict_driver, [l for _, l in strict_jobs])
+        for (h, l), a in zip(strict_jobs, sa):
+            total["strict_decoded"] = total.get("strict_decoded", 0) + 1
+            want = "ok SD:106:%d %s ED" % (h["lang"], " ".join(expected_events(pools, h["lang"], h["pool"], h["lives"][-1][0])))
+            if a != want:
+                concrete.append({"kind": "strict-decoder", "input": h["line"], "strict_input": l, "decoded": a, "expected": want,
+                                 "what": "the final flow output, read by the proved strict decoder (Spec.decode_lang), does not denote exactly the nodes that remain"})
